@@ -318,7 +318,17 @@ def units_mentioning(words, under=None):
 
 class Fn(dict):
     """function record; self['types'] is the unit's type table"""
-    __slots__ = ('types',)
+    __slots__ = ('types', 'tsz', 'tpt')
+
+    def sizeof(self, node_or_id):
+        """size in bytes of the (canonical) type of a node / type id; -1 when unknown"""
+        i = node_or_id if isinstance(node_or_id, int) else node_or_id.get('t', -1)
+        return self.tsz[i] if self.tsz and i is not None and 0 <= i < len(self.tsz) else -1
+
+    def pointee(self, node_or_id):
+        """type id of the pointee / referee / element type; -1 when none"""
+        i = node_or_id if isinstance(node_or_id, int) else node_or_id.get('t', -1)
+        return self.tpt[i] if self.tpt and i is not None and 0 <= i < len(self.tpt) else -1
 
     def tstr(self, node_or_id):
         i = node_or_id if isinstance(node_or_id, int) else node_or_id.get('t', -1)
@@ -355,6 +365,8 @@ class Program:
         if head is None:
             raise AnalysisBroken('bad IR file ' + path)
         types = head['types']
+        tsz = head.get('tsz')
+        tpt = head.get('tpt')
         self.units.append(unit)
         for ln in lines:
             if not ln:
@@ -365,6 +377,8 @@ class Program:
                     continue
                 fn = Fn(json.loads(js))
                 fn.types = types
+                fn.tsz = tsz
+                fn.tpt = tpt
                 self.fns[key] = fn
                 self.byq.setdefault(fn['q'], []).append(fn)
                 self.nrecords += 1
@@ -380,6 +394,8 @@ class Program:
                 if key not in self.globals:
                     g = Fn(json.loads(js))
                     g.types = types
+                    g.tsz = tsz
+                    g.tpt = tpt
                     self.globals[key] = g
             elif tag == 'K':
                 if key not in self.consts:
